@@ -59,15 +59,63 @@ def build(case):
         doc.biophysical_properties.append(mk_obj("b", o))
     for c in case["cells"]:
         cls = neuroml.Cell if c["list"] == "cells" else neuroml.Cell2CaPools
-        x = cls(id=c["id"], notes="t%d" % c["rest"])
-        x.morphology_attr = c["m"]["attr"]
-        x.biophysical_properties_attr = c["b"]["attr"]
-        if c["m"]["emb"] is not None:
-            x.morphology = mk_obj("m", c["m"]["emb"])
-        if c["b"]["emb"] is not None:
-            x.biophysical_properties = mk_obj("b", c["b"]["emb"])
-        (doc.cells if c["list"] == "cells" else doc.cell2_ca_poolses).append(x)
+        how = c.get("how", "assign")
+        tgt = doc.cells if c["list"] == "cells" else doc.cell2_ca_poolses
+        if how == "assign":  # bare object, attributes assigned afterwards
+            x = cls(id=c["id"], notes="t%d" % c["rest"])
+            x.morphology_attr = c["m"]["attr"]
+            x.biophysical_properties_attr = c["b"]["attr"]
+            if c["m"]["emb"] is not None:
+                x.morphology = mk_obj("m", c["m"]["emb"])
+            if c["b"]["emb"] is not None:
+                x.biophysical_properties = mk_obj("b", c["b"]["emb"])
+            tgt.append(x)
+            continue
+        # the ways the API documents: constructor keywords, component_factory, add (by class and by class name)
+        kw = {"id": c["id"], "notes": "t%d" % c["rest"], "morphology_attr": c["m"]["attr"],
+              "biophysical_properties_attr": c["b"]["attr"],
+              "morphology": None if c["m"]["emb"] is None else mk_obj("m", c["m"]["emb"]),
+              "biophysical_properties": None if c["b"]["emb"] is None else mk_obj("b", c["b"]["emb"])}
+        kw = {k: v for k, v in kw.items() if v is not None}
+        if how == "ctor":
+            tgt.append(cls(**kw))
+        elif how == "factory":
+            tgt.append(doc.component_factory(cls, validate=False, **kw))
+        elif how == "add":
+            doc.add(cls, validate=False, **kw)
+        else:  # "add_name"
+            doc.add(cls.__name__, validate=False, **kw)
     return doc
+
+
+def ctor_probe():
+    """Cell2CaPools.__init__ hands its parameters on to Cell.__init__ positionally: every forwarded name must sit at the
+    position of the same-named Cell parameter (read from the source of the one method; fail closed)"""
+    import ast
+    import inspect
+    import textwrap
+    res = {"parse_ok": False, "mismatches": [], "detail": ""}
+    try:
+        src = textwrap.dedent(inspect.getsource(neuroml.Cell2CaPools.__init__))
+        fn = ast.parse(src).body[0]
+        base = [p for p in inspect.signature(neuroml.Cell.__init__).parameters][1:]
+        calls = [n for n in ast.walk(fn) if isinstance(n, ast.Call) and isinstance(n.func, ast.Attribute) and n.func.attr == "__init__"
+                 and ast.unparse(n.func.value).startswith("super(")]
+        assert len(calls) == 1, "expected one super().__init__ call, found %d" % len(calls)
+        for i, a in enumerate(calls[0].args):
+            want = base[i] if i < len(base) else None
+            if not isinstance(a, ast.Name) or a.id != want:
+                res["mismatches"].append({"position": i, "cell_parameter": want, "argument": ast.unparse(a)})
+        for k in calls[0].keywords:
+            if k.arg is not None and (not isinstance(k.value, ast.Name) or k.value.id != k.arg):
+                res["mismatches"].append({"keyword": k.arg, "argument": ast.unparse(k.value)})
+        own = [p for p in inspect.signature(neuroml.Cell2CaPools.__init__).parameters]
+        for need in ("morphology_attr", "biophysical_properties_attr", "morphology", "biophysical_properties"):
+            assert need in own and need in base, "parameter %s missing" % need
+        res["parse_ok"] = True
+    except Exception as e:
+        res["detail"] = ("%s: %s" % (type(e).__name__, e))[:300]
+    return res
 
 
 def tnum(s):
@@ -362,7 +410,10 @@ def main():
         shutil.rmtree(top, ignore_errors=True)
     sys.stdout.flush()
     print()
-    print(json.dumps({"results": out, "histories": hist_out}))
+    res = {"results": out, "histories": hist_out}
+    if req.get("ctor_probe"):
+        res["ctor_probe"] = ctor_probe()
+    print(json.dumps(res))
 
 
 if __name__ == "__main__":
